@@ -87,7 +87,9 @@ def sharp_corner_family():
     """a corner of about 16 degrees (miter ratio 7.07): mitered only when the miterlimit in force is at
     least that - the default is 4, so without any stroke-miterlimit the join is bevelled"""
     docs = []
-    for tag, g in (("polygon", [15, 6, 3, 8, 15, 10]), ("polyline", [15, 6, 3, 8, 15, 10])):
+    # (the last one: an OPEN polyline that ends where it started, at the sharp corner - two caps there, no join)
+    for tag, g in (("polygon", [15, 6, 3, 8, 15, 10]), ("polyline", [15, 6, 3, 8, 15, 10]),
+                   ("polyline", [3, 8, 15, 6, 15, 10, 3, 8])):
         for w in (1, 2):
             for ml in (None, 4, 10, 1):
                 for where in ("own", "group"):
